@@ -19,6 +19,7 @@ import (
 	"github.com/pion/transport/v3/internal/vrt"
 	"github.com/pion/transport/v3/packetio"
 	"github.com/pion/transport/v3/test"
+	"github.com/pion/transport/v3/udp"
 	"github.com/pion/transport/v3/vnet"
 )
 
@@ -129,8 +130,56 @@ func (a *vnAd) arrive(id int, _ bool) bool {
 func (a *vnAd) read(buf []byte) (int, error) { n, _, err := a.r.ReadFrom(buf); return n, err }
 func (a *vnAd) close()                       { _ = a.router.Stop(); _ = a.r.Close(); _ = a.w.Close() }
 
+// --- udp listener connection (real loopback sockets: real-time runs only)
+type udpAd struct {
+	ln     net.Listener
+	conn   net.Conn
+	client *net.UDPConn
+	nset   int
+}
+
+func newUDPAd() *udpAd {
+	ln, err := udp.Listen("udp", &net.UDPAddr{IP: net.IPv4(127, 0, 0, 1), Port: 0})
+	if err != nil {
+		panic(err)
+	}
+	cl, err := net.DialUDP("udp", nil, ln.Addr().(*net.UDPAddr)) //nolint:forcetypeassert
+	if err != nil {
+		panic(err)
+	}
+	_, _ = cl.Write([]byte("hello"))
+	c, err := ln.Accept()
+	if err != nil {
+		panic(err)
+	}
+	buf := make([]byte, 16)
+	_, _ = c.Read(buf)
+
+	return &udpAd{ln: ln, conn: c, client: cl}
+}
+
+func (a *udpAd) setDL(t time.Time) {
+	a.nset++
+	if a.nset%2 == 0 {
+		_ = a.conn.SetDeadline(t) // both setters must move the read deadline
+	} else {
+		_ = a.conn.SetReadDeadline(t)
+	}
+}
+
+func (a *udpAd) arrive(id int, _ bool) bool {
+	_, _ = a.client.Write(payload(id))
+	time.Sleep(5 * time.Millisecond)
+
+	return true
+}
+func (a *udpAd) read(buf []byte) (int, error) { return a.conn.Read(buf) }
+func (a *udpAd) close()                       { _ = a.conn.Close(); _ = a.ln.Close(); _ = a.client.Close() }
+
 func newAdapter(name string) adapter {
 	switch name {
+	case "udp":
+		return newUDPAd()
 	case "buffer":
 		return &bufAd{b: packetio.NewBuffer()}
 	case "dpipe":
@@ -323,8 +372,10 @@ func TestVerifRDLRealtime(t *testing.T) {
 	tr := vrt.Open()
 	defer tr.Close()
 	hs := loadHistories(t)
-	for _, ops := range hs {
-		runHistory(tr, "vnet", ops, 300*time.Millisecond, func() { time.Sleep(25 * time.Millisecond) })
+	for _, name := range []string{"vnet", "udp"} {
+		for _, ops := range hs {
+			runHistory(tr, name, ops, 300*time.Millisecond, func() { time.Sleep(25 * time.Millisecond) })
+		}
 	}
 	t.Logf("histories=%d events=%d", len(hs), tr.N)
 }
